@@ -256,7 +256,13 @@ func c29Case(c *Ctx, i int, r *rand.Rand) {
 		c.Count("executions_ending_in_go_panic", 1)
 	}
 	for _, v := range viol {
-		c.Violate(v.site, fmt.Sprintf("%s\nsource:\n%s", v.msg, head(src, 1800)), i, src)
+		site := v.site
+		if strings.HasPrefix(site, "inconsistent-stack-depth:") && loopJumpInCatchBody(src) {
+			// root cause named instead of the opcode at the join: `continue` / `break` compiled inside a catch body
+			// does not pop the caught error and its stack trace (listed finding)
+			site = "inconsistent-stack-depth:loop-jump-out-of-catch-body"
+		}
+		c.Violate(site, fmt.Sprintf("%s\nsource:\n%s", v.msg, head(src, 1800)), i, src)
 	}
 }
 
@@ -276,4 +282,32 @@ func init() {
 		MinCounters: map[string]int64{"functions_checked": 5000, "jumps_checked": 20000, "call_sites_checked": 20000, "catch_entries_checked": 1000, "depth_rechecks_at_revisited_points": 100000, "programs_big_pool_mutual_calls": 50, "programs_value_loops": 100},
 		Assumptions: []string{"instruction boundaries come from the repository's own disassembler (an unknown opcode or short operand is itself reported); operand-stack depth is observed on executed paths only (dynamic), not on all static paths; mutated snippets and repository files are compiled and structure-checked but not executed"},
 	})
+}
+
+// loopJumpInCatchBody reports whether a `continue` or `break` occurs lexically inside a catch body
+// (programs printed with two-space indentation: the catch body is everything more indented than the
+// `catch` line up to the next line at its indentation).
+func loopJumpInCatchBody(src string) bool {
+	lines := strings.Split(src, "\n")
+	indentOf := func(l string) int { return len(l) - len(strings.TrimLeft(l, " ")) }
+	for i, l := range lines {
+		t := strings.TrimSpace(l)
+		if !strings.HasPrefix(t, "catch") {
+			continue
+		}
+		ind := indentOf(l)
+		for _, m := range lines[i+1:] {
+			if strings.TrimSpace(m) == "" {
+				continue
+			}
+			if indentOf(m) <= ind {
+				break
+			}
+			w := strings.TrimSpace(m)
+			if strings.HasPrefix(w, "continue") || strings.HasPrefix(w, "break") {
+				return true
+			}
+		}
+	}
+	return false
 }
